@@ -1069,22 +1069,21 @@ void SetupCellBounds(const Cell& cell, const Bounds& cmdline) {
 // Child: explores the cell depth-first starting from shm->path (empty unless resuming).
 [[noreturn]] void ChildExplore(const Cell& cell) {
   Shm* s = g.shm;
-  static Dec warm_path[kMaxDepth];
-  static std::uint32_t warm_len = 0;
   InstallHooks();
-  // warm-up execution on the default schedule: lazily initialised statics must not look like leaks
-  s->in_warmup = 1;
-  g.warmup = true;
-  g.path = warm_path;
-  g.path_len = &warm_len;
-  warm_len = 0;
-  RunExecution(cell);
-  g.warmup = false;
-  s->in_warmup = 0;
   g.path = s->path;
   g.path_len = &s->path_len;
   if (s->resume == 0) {
     s->path_len = 0;
+  }
+  // Warm-up: the first path of this process is executed twice, the first time without leak
+  // accounting, so that lazily initialised statics of the library do not look like leaks.  It runs on
+  // the real path buffer: if it is fatal, the supervisor sees the schedule that was in flight.
+  {
+    const std::uint32_t saved = s->path_len;
+    g.warmup = true;
+    RunExecution(cell);
+    g.warmup = false;
+    s->path_len = saved;
   }
   const double t0 = NowS();
   std::uint64_t since_clock = 0;
@@ -1357,15 +1356,6 @@ int Supervise(const Options& opt, const std::string& cell_id, std::string& js, d
       machinery = 1;
       machinery_text = Summarize(ReadTail(opt.stderr_file, 4000));
       break;
-    }
-    if (s->in_warmup != 0 && s->resume != 0) {
-      machinery = 1;
-      machinery_text = "child died in warm-up after a resume: " + StatusText(status);
-      break;
-    }
-    if (s->in_warmup != 0) {
-      // the default schedule itself is fatal; its path was recorded in the child's private buffer
-      s->path_len = 0;
     }
     // fatal outcome of the execution in flight (path = s->path[0..path_len))
     g.path = s->path;
